@@ -147,22 +147,32 @@ def r4_enumerator(ctx, rep, R='C19.R4'):
     ok = False
     why = 'threadsupport.enumerate not found'
     if fi is not None:
+        from .common import sources_of, local_assignments, nodes_calling
+        assigns = local_assignments(fi.node)
         rets = [n for n in ast.walk(fi.node) if isinstance(n, ast.Return) and n.value is not None]
-        why = 'unexpected shape'
-        if len(rets) == 1 and isinstance(rets[0].value, (ast.ListComp,)):
+        why = 'the result does not hold one ThreadProxy per identifier of current_frames()'
+        if len(rets) == 1 and isinstance(rets[0].value, ast.ListComp):
             comp = rets[0].value
-            g = comp.generators[0]
-            src = None
-            for n in ast.walk(fi.node):
-                if isinstance(n, ast.Assign) and is_name(n.targets[0], dotted(g.iter) or ''):
-                    src = n.value
-            frames = src is not None and 'current_frames' in norm(src)
-            why = 'the result does not cover every identifier of current_frames()'
-            ok = frames and not g.ifs and len(comp.generators) == 1 and \
+            g0 = comp.generators[0]
+            src = sources_of(g0.iter, assigns)
+            ok = 'current_frames' in src and not g0.ifs and len(comp.generators) == 1 and \
                 isinstance(comp.elt, ast.Call) and dotted(comp.elt.func) == 'ThreadProxy'
+        elif len(rets) == 1 and isinstance(rets[0].value, ast.Name):
+            res = rets[0].value.id
+            g = ctx.cfg(fi)
+            loops = [n for n in g.nodes if n.kind == 'for' and
+                     'current_frames' in sources_of(n.ast, assigns)]
+            apps = nodes_calling(g, lambda c: isinstance(c.func, ast.Attribute) and
+                                 c.func.attr == 'append' and is_name(c.func.value, res) and c.args and
+                                 isinstance(c.args[0], ast.Call) and
+                                 dotted(c.args[0].func) == 'ThreadProxy')
+            if len(loops) == 1 and apps:
+                body = [d for d, k in g.succ[loops[0].id] if k == 'true']
+                r = g.reach(body, avoid=set(apps), include_start=True)
+                ok = loops[0].id not in r and g.exit not in r
     cf = mod.constants.get('current_frames')
     ok = ok and cf is not None and '_current_frames' in norm(cf)
-    rep.check(ok, R, 'enumerate(): [ThreadProxy(...) for every ident in sys._current_frames()]', why,
+    rep.check(ok, R, 'enumerate(): one ThreadProxy for every ident in sys._current_frames()', why,
               key='enumerate:shape', func='threadsupport.enumerate',
               where=ctx.where(fi, fi.node) if fi else 'threadsupport')
     tp = m.cls('threadsupport.ThreadProxy')
